@@ -301,6 +301,7 @@ func TestC12BigFreelist(t *testing.T) {
 				viol = v
 			}
 		}
+		drv.SetFailing()
 		log := e.Log
 		e.Cleanup()
 		if viol != nil {
